@@ -5,16 +5,26 @@ from common import *
 import kernel
 
 COQ_PROPS = 'props/C05.v'
-PARTIAL = ('proved: Welch-Satterthwaite for any number of independent inputs (finite/infinite dof mixed), classical form, '
-           'all-infinite case with dependent inputs; the ensemble grouping of the loop for real results is tied to the code '
-           'by bit-exact correspondence of the faithful loop model and checked against the group specification by the oracle; '
-           'Willink-Hall (complex results) is checked by the oracle only')
+PARTIAL = ('proved: Welch-Satterthwaite for any number of independent inputs (finite/infinite dof mixed) in classical form; the '
+           'all-infinite case; and for real results with DEPENDENT inputs (any number, any interleaving, no complex pairing): the '
+           'loop never reaches its assert-False path when every declared correlation joins two infinite-dof inputs or two members '
+           'of one ensemble, returns the LPU variance and 1/den with one term per independent input, per dependent input without '
+           'ensemble and per ensemble accumulator, and each accumulator holds exactly the total of its ensemble; complex pairs '
+           '(finish_complex) and Willink-Hall (complex results) are tied by correspondence and checked by the oracle only')
 ASSUMPTIONS = ['rounding not bounded by proof']
 TRUSTED = ['Coq Reals library']
 
 def correspondence(rng, tier):
     n = 260 if tier == 'quick' else 4000
-    return kernel.run_kernel_corr(rng, n, 'df', 'C05')
+    r = kernel.run_kernel_corr(rng, n, 'df', 'C05')
+    # ensembles extended by append_real_ensemble (regression predictions): the fit machine of C13
+    import fit_a
+    f = fit_a.fit_correspondence(rng, tier, n=80 if tier == 'quick' else 1500)
+    r['mismatches'] += f.get('mismatches', [])
+    r['programs'] += f.get('programs', 0); r['steps'] += f.get('steps', 0)
+    r['distribution']['fit_programs'] = f.get('programs', 0)
+    r['rule'] += '; plus type-A line-fit programs with several predictions per fit (append_real_ensemble), ensemble content of every live leaf observed after every step'
+    return r
 
 # ---------------------------------------------------------------- group specification (search only)
 def build(rng, allow_complex=False):
